@@ -11,12 +11,22 @@ import DdoModel.Examples.AlpDp
 * `minSepTo_le` (**proved**): `min_separation_to[j]` is a lower bound of COLUMN `j` of the separation matrix — the
   separation before an aircraft of class `j` whatever was landed before it; this is what a walk from a merged state relies
   on, and what the transposed index (`separation[j][i]`, the row) breaks on asymmetric matrices;
-* stated, not proved (`def … : Prop`), all three evaluated pointwise by the driver on every generated instance of the
-  domain: `MergeOkStmt` (the best completion of the merge of a list of states is worth at least the best completion of
-  each of them: needs the triangle inequality — a landing removed from a runway never delays the next — and the
-  identification of sorted runways with physical ones), `DomAdmissibleStmt` (equal key, earlier or equal time on every
-  runway: the best completion is at least as good), `DpExactStmt` (value of a prefix + best completion = minus the least
-  delay of the specification `Alp.delay` among the schedules extending the prefix). -/
+* `MergeOkStmt`, `DomAdmissibleStmt` (`def … : Prop`, as first written, on `StOk` states): **FALSE** — kernel-checked
+  counter-examples `mergeOkStmt_false`, `mergeOkStmt_false'`, `domAdmissibleStmt_false` (`AlpProofsMain.lean`), all on states
+  NO run can build (`StOk` forgot that runway times are `≥ 0` and runway classes are `-1` or classes of the instance); not a
+  defect of the example;
+* `MergeOkValidStmt`, `DomAdmissibleValidStmt` (end of this file: the same on `StValid` states = `StOk` + those two facts):
+  **theorems** `mergeOkValid`, `domAdmissibleValid` (`AlpProofsMain.lean`; every instance of the input domain; the proof —
+  `AlpProofsSort/Dom/Sim.lean` — is a simulation on best completions: the relaxing state answers a landing by the same
+  landing on the matched runway, or by nothing when it has not the aircraft; uses the triangle inequality, `minSepTo_le`,
+  and that the early `return` and the symmetry breaking of `for_each_in_domain` lose nothing);
+* `wfRel` (`AlpProofsWf.lean`): the `WfRel` instance (potential `best`); `alp_relaxed_ub_partial`: the corollary of the generic
+  relaxed-diagram theorem, conditional on `NoClampDom`, which `noClampDom_false` shows to be false for this model (the clause
+  quantifies over ill-shaped states too);
+* still stated only, evaluated pointwise by the driver: `DpExactStmt` (value of a prefix + best completion = minus the least
+  delay of the specification `Alp.delay` among the schedules extending the prefix; missing: the exchange argument inside a
+  class — landing a class in file order loses nothing, where the sorted targets / latest times enter —, separation from ALL
+  earlier landings of the runway vs the last one only, and the identification of sorted runways with physical ones). -/
 namespace Ddo.Examples.AlpModel
 open Ddo Ddo.Examples Ddo.Examples.Util
 
@@ -122,5 +132,26 @@ def DpExactStmt : Prop :=
   I.inDomain = true → ∀ (decs : List Int) (s : St) (v : Int) (pre : List (Nat × Nat)),
     replayPhys I decs (initState I) (List.range I.nbRunways) 0 [] = some (s, v, pre) →
     (best I s).addI v = (specExt I pre).map (fun d => -d)
+
+-- ------------------------------------------------------------------------------------------------------------------
+-- the statements restricted to the states the model can produce (proofs: `AlpProofs*.lean`)
+
+/-- a runway as the model produces them: a non-negative time (no aircraft lands before its target time, and the targets
+    of the domain are `≥ 0`), class `-1` (unknown) or a class of the instance -/
+def RwOk (p : Rw) : Prop := 0 ≤ p.1 ∧ -1 ≤ p.2 ∧ p.2 < (I.nbClasses : Int)
+
+/-- `StOk` and every runway is `RwOk`: what `StOk` forgot (the statements above are FALSE on `StOk` states whose runways
+    carry a negative time or a class that is not one of the instance: `AlpProofsMain.lean`, `mergeOkStmt_false`,
+    `domAdmissibleStmt_false`) -/
+def StValid (s : St) : Prop := StOk I s ∧ ∀ p ∈ s.2, RwOk I p
+
+/-- `MergeOkStmt` on valid states -/
+def MergeOkValidStmt : Prop :=
+  I.inDomain = true → ∀ (ts : List St) (t : St), (∀ u ∈ ts, StValid I u) → t ∈ ts → best I t ≤ best I (mergeStates I ts)
+
+/-- `DomAdmissibleStmt` on valid states -/
+def DomAdmissibleValidStmt : Prop :=
+  I.inDomain = true → ∀ (a b : St), StValid I a → StValid I b → keyOf a = keyOf b →
+    (∀ i : Nat, i < I.nbRunways → domRule.coord b i ≤ domRule.coord a i) → best I b ≤ best I a
 
 end Ddo.Examples.AlpModel
